@@ -321,8 +321,8 @@ def pinned_ok(doc):
 def minimal(node, defs, depth=0):
     if "$ref" in node:
         return minimal(defs[node["$ref"].split("/")[-1]], defs, depth + 1)
-    if "anyOf" in node:
-        return minimal(node["anyOf"][0], defs, depth + 1)
+    if node.get("anyOf") or node.get("oneOf"):
+        return minimal((node.get("anyOf") or node.get("oneOf"))[0], defs, depth + 1)
     t = node.get("type")
     t = t[0] if isinstance(t, list) else t
     if t == "object":
@@ -363,8 +363,8 @@ def witness_for(schema, site, root="MetaModel", target=None):
                 return False, None
             seen.add(n)
             return search(defs[n])
-        if "anyOf" in node:
-            for a in node["anyOf"]:
+        if node.get("anyOf") or node.get("oneOf"):
+            for a in node.get("anyOf") or node.get("oneOf"):
                 ok, r = search(a)
                 if ok:
                     return True, r
